@@ -461,7 +461,101 @@ def oracle_junit(rec, tree):
 
 # --------------------------------------------------------------------------
 
-ORACLES = [("basic", oracle_basic), ("libtest", oracle_libtest), ("json", oracle_json), ("junit", oracle_junit)]
+
+
+# --------------------------------------------------------------------------
+# plain terminal report with its summary (Basic::stdout() = Basic behind Normalize behind Summarize)
+
+_SUM_LINE = re.compile(r"^(\d+) (feature|rule|scenario|step)s?(?: \((.*)\))?$")
+
+
+def parse_summary_block(text):
+    """-> dict or None if there is no [Summary] block; raises ValueError on a malformed block."""
+    pos = text.rfind("[Summary]")
+    if pos < 0:
+        return None
+    lines = [l.strip() for l in text[pos:].splitlines()[1:] if l.strip()]
+    out = {"parsing_errors": 0, "hook_errors": 0}
+    for l in lines:
+        m = _SUM_LINE.match(l)
+        if m:
+            n, what, stats = int(m.group(1)), m.group(2), m.group(3)
+            if what in ("feature", "rule"):
+                if stats is not None:
+                    raise ValueError(f"unexpected details on line {l!r}")
+                out[what + "s"] = n
+                continue
+            d = {"total": n, "passed": 0, "skipped": 0, "failed": 0, "retried": 0}
+            if stats is not None:
+                body, _, retr = stats.partition(" with ")
+                if stats.startswith("with "):
+                    body, retr = "", stats[len("with "):]
+                for part in [p for p in body.split(", ") if p]:
+                    mm = re.fullmatch(r"(\d+) (passed|skipped|failed)", part)
+                    if not mm:
+                        raise ValueError(f"cannot read {part!r} in {l!r}")
+                    d[mm.group(2)] = int(mm.group(1))
+                if retr:
+                    mm = re.fullmatch(r"(\d+) retr(y|ies)", retr)
+                    if not mm or (int(mm.group(1)) == 1) != (mm.group(2) == "y"):
+                        raise ValueError(f"cannot read {retr!r} in {l!r}")
+                    d["retried"] = int(mm.group(1))
+            out[what + "s"] = d
+            continue
+        ok = True
+        for part in l.split(", "):
+            mm = re.fullmatch(r"(\d+) (parsing|hook) errors?", part)
+            if not mm:
+                ok = False
+                break
+            out[mm.group(2) + "_errors"] = int(mm.group(1))
+        if not ok:
+            raise ValueError(f"unexpected summary line {l!r}")
+    return out
+
+
+def oracle_summary(rec, tree):
+    text = rec["summarized"].get("ok")
+    if text is None:
+        return [("summary:panicked", rec["summarized"].get("panic", ""))]
+    exp = rec["expected_summary"]
+    probs = []
+    plain = rec["basic"].get("ok")
+    n_blocks = text.count("[Summary]")
+    if not exp["finished"]:
+        return [] if n_blocks == 0 else [("summary:without-run-finished", "a summary was printed although the run never finished")]
+    if n_blocks != 1:
+        return [("summary:block-count", f"{n_blocks} [Summary] blocks in the terminal report")]
+    # the report in front of the summary is the plain report
+    if plain is not None and text[:text.rfind("[Summary]")].rstrip("\n") != plain.rstrip("\n"):
+        probs.append(("summary:report-differs", "the report printed in front of the summary differs from the plain report of the same stream"))
+    try:
+        got = parse_summary_block(text)
+    except ValueError as e:
+        return probs + [("summary:malformed", str(e))]
+    if got.get("features") != exp["features"] or got.get("rules", 0) != exp["rules"]:
+        probs.append(("summary:brackets", f"summary states {got.get('features')} features / {got.get('rules', 0)} rules, the stream has {exp['features']} / {exp['rules']}"))
+    for what in ("scenarios", "steps"):
+        g, e = got.get(what), exp[what]
+        if g is None:
+            probs.append(("summary:malformed", f"no {what} line"))
+            continue
+        if g["total"] != g["passed"] + g["skipped"] + g["failed"]:
+            probs.append((f"summary:{what}-total", f"{what} line states a total of {g['total']} but {g['passed']} passed + {g['skipped']} skipped + {g['failed']} failed"))
+        if (g["passed"], g["skipped"], g["failed"]) != (e["passed"], e["skipped"], e["failed"]):
+            probs.append((f"summary:{what}", f"summary states {what} passed/skipped/failed = {g['passed']}/{g['skipped']}/{g['failed']}, the entries give {e['passed']}/{e['skipped']}/{e['failed']}"))
+        if what == "steps" and g["retried"] != e["retried"]:
+            probs.append(("summary:steps-retried", f"summary states {g['retried']} retried steps, the entries give {e['retried']}"))
+        if what == "scenarios" and g["retried"] > e["retried_at_most"]:
+            probs.append(("summary:scenarios-retried", f"summary states {g['retried']} retried scenarios, only {e['retried_at_most']} scenarios have a retried failure"))
+    if got["parsing_errors"] != exp["parsing_errors"] or got["hook_errors"] != exp["hook_errors"]:
+        probs.append(("summary:errors", f"summary states {got['parsing_errors']} parsing / {got['hook_errors']} hook errors, the stream has {exp['parsing_errors']} / {exp['hook_errors']}"))
+    return probs
+
+
+
+ORACLES = [("basic", oracle_basic), ("libtest", oracle_libtest), ("json", oracle_json), ("junit", oracle_junit),
+           ("summarized", oracle_summary)]
 
 
 def shape(rec, tree, reporter):
@@ -481,7 +575,7 @@ def shape(rec, tree, reporter):
 def run(workdirs):
     viols, distinct, samples = [], set(), []
     evaluations = 0
-    counters = {"c14.documents_parsed": 0, "c14.cases": 0}
+    counters = {"c14.documents_parsed": 0, "c14.cases": 0, "c14.summary_blocks_parsed": 0, "c14.summaries_with_retried_scenarios": 0}
     errors = []
     for wd in workdirs:
         for path in sorted(glob.glob(os.path.join(wd, "*.dump.jsonl"))):
@@ -495,6 +589,15 @@ def run(workdirs):
                     sh = shape(rec, tree, name)
                     if sh is not None:
                         distinct.add(sh)
+                    if name == "summarized":
+                        try:
+                            blk = parse_summary_block(rec["summarized"].get("ok") or "")
+                        except ValueError:
+                            blk = None
+                        if blk:
+                            counters["c14.summary_blocks_parsed"] += 1
+                            if blk.get("scenarios", {}).get("retried"):
+                                counters["c14.summaries_with_retried_scenarios"] += 1
                     try:
                         probs = fn(rec, tree)
                     except Exception as e:  # noqa: BLE001
